@@ -669,6 +669,13 @@ def flow(run, mod):
         if pres.ok:
             raise
         corr.harness_errors.append("driver unavailable (Lean build failed)")
+    except (subprocess.TimeoutExpired, KeyboardInterrupt):
+        raise
+    except Exception as e:
+        # the implementation answered something the check's own bookkeeping cannot digest (output of a shape the
+        # unchanged code never produces): the tie could not be established - not a crash of the check
+        corr.harness_errors.append("correspondence aborted: %s: %s | %s" % (
+            type(e).__name__, str(e)[-300:], traceback.format_exc()[-700:]))
     for he in corr.harness_errors:
         broken.append({"tie": "correspondence-harness", "error": he})
     if corr.disagreements:
@@ -686,6 +693,13 @@ def flow(run, mod):
         found = mod.search(run, corr, deep=bool(broken))
     except HarnessError as e:
         broken.append({"tie": "oracle-harness", "error": str(e)[-1500:]})
+    except (InternalError, subprocess.TimeoutExpired, KeyboardInterrupt):
+        raise
+    except Exception as e:
+        if not broken:
+            raise InternalError("property oracle crashed: %s" % traceback.format_exc()[-1500:])
+        broken.append({"tie": "oracle-harness", "error": "oracle aborted on the implementation's output: %s: %s | %s" % (
+            type(e).__name__, str(e)[-300:], traceback.format_exc()[-700:])})
     if broken and not any(v["kind"] == "failing-input" for v in run.violations):
         if not (run.known_hits and all_broken_explained(run, broken, mod)):
             run.report_unproved(broken)
